@@ -508,7 +508,7 @@ def corrupt(cx, win, exe, inputs, cfg, strides, parse_max=None, aw_cfg=None):
         m = mutated(enc, kind, pos, val) if enc is not None else None
         big = len(inputs[i][1]) > 20000      # big input: TLC is given no copy of it and reports the length of Expand instead
         wt = len(m or b"") + (len(inputs[i][1]) // 16 if big else len(inputs[i][1]))
-        if (m is None or (lim is not None and len(m) > lim) or nreal >= 2000 or nbytes + wt > 1000000
+        if (m is None or (lim is not None and len(m) > lim) or nreal >= (2000 if win == "prod" else 40000) or nbytes + wt > (1000000 if win == "prod" else 4000000)
                 or (win == "prod" and eq is None)):   # production window: sanitizer reports are keyed by their text
             cases.append(None)   # not classified by TLC (too long / too many): reported under a key that is never "known"
         else:
